@@ -306,6 +306,10 @@ pub fn array_map(
     // Use array-like length with full ToLength coercion (works on both arrays and array-like objects)
     let length = get_array_like_length(interp, &arr)?;
 
+    // The result is a dense array: an array-like receiver may claim any length.
+    if length as usize > crate::value::MAX_ARRAY_LENGTH {
+        return Err(JsError::range_error("Invalid array length"));
+    }
     let mut result = Vec::with_capacity(length as usize);
     for i in 0..length {
         // Check if property exists (sparse arrays / array-likes may have holes)
@@ -778,12 +782,20 @@ pub fn array_concat(
         }
     }
 
-    fn add_elements(result: &mut Vec<JsValue>, value: JsValue, spreadable_key: &PropertyKey) {
+    fn add_elements(
+        result: &mut Vec<JsValue>,
+        value: JsValue,
+        spreadable_key: &PropertyKey,
+    ) -> Result<(), JsError> {
         let (should_spread, length) = should_spread_value(&value, spreadable_key);
 
         if should_spread {
             if let JsValue::Object(obj) = &value {
                 let obj_ref = obj.borrow();
+                // A spreadable array-like may claim any length; the result is dense.
+                if result.len() + length.unwrap_or(0) as usize > crate::value::MAX_ARRAY_LENGTH {
+                    return Err(JsError::range_error("Invalid array length"));
+                }
                 for i in 0..length.unwrap_or(0) {
                     let elem = obj_ref
                         .get_property(&PropertyKey::Index(i))
@@ -794,12 +806,13 @@ pub fn array_concat(
         } else {
             result.push(value);
         }
+        Ok(())
     }
 
-    add_elements(&mut result, this, &spreadable_key);
+    add_elements(&mut result, this, &spreadable_key)?;
 
     for arg in args {
-        add_elements(&mut result, arg.clone(), &spreadable_key);
+        add_elements(&mut result, arg.clone(), &spreadable_key)?;
     }
 
     let guard = interp.heap.create_guard();
@@ -1618,31 +1631,44 @@ pub fn array_flat(
 
     let depth = args.first().map(|v| v.to_number() as i32).unwrap_or(1);
 
-    fn flatten(arr: &JsObjectRef, depth: i32) -> Vec<JsValue> {
+    // `nesting` bounds the native recursion (an array may contain itself) and the result
+    // size is bounded like every other array.
+    fn flatten(
+        arr: &JsObjectRef,
+        depth: i32,
+        nesting: usize,
+        result: &mut Vec<JsValue>,
+    ) -> Result<(), JsError> {
+        if nesting > 1000 {
+            return Err(JsError::range_error("Maximum call stack size exceeded"));
+        }
         let elements: Vec<JsValue> = {
             let arr_ref = arr.borrow();
             if let Some(elements) = arr_ref.array_elements() {
                 elements.to_vec()
             } else {
-                return vec![];
+                return Ok(());
             }
         };
 
-        let mut result = Vec::new();
         for elem in elements {
             if depth > 0
                 && let JsValue::Object(ref inner) = elem
                 && inner.borrow().is_array()
             {
-                result.extend(flatten(inner, depth - 1));
+                flatten(inner, depth - 1, nesting + 1, result)?;
                 continue;
+            }
+            if result.len() >= crate::value::MAX_ARRAY_LENGTH {
+                return Err(JsError::range_error("Invalid array length"));
             }
             result.push(elem);
         }
-        result
+        Ok(())
     }
 
-    let elements = flatten(&arr, depth);
+    let mut elements = Vec::new();
+    flatten(&arr, depth, 0, &mut elements)?;
     let guard = interp.heap.create_guard();
     let arr = interp.create_array_from(&guard, elements);
     Ok(Guarded::with_guard(JsValue::Object(arr), guard))
